@@ -195,6 +195,8 @@ def items(tier):
         i += 1
     out.append((i, 'lintSeeds'))
     i += 1
+    out.append((i, 'lintConst'))
+    i += 1
     for k in range(len(BIG_PROGRAMS)):
         out.append((i, 'bigstack', k))
         i += 1
@@ -362,6 +364,10 @@ def run_item(item, tier):
         for body in lint_bodies(fl, tier)[lo:hi]:
             lint(st, f'B[{fl}] without markers', lint_source(body, fl), must_compile=False)
         st.sample({'lint_twin_of_unmarked_body': lint_source(lint_bodies(fl, tier)[lo], fl).split('\n')[3]})
+    elif kind == 'lintConst':
+        for k, src in enumerate(lint_const_programs()):
+            lint(st, f'constant-condition program {k}', src, must_compile=False)
+        st.sample({'lint_twins_with_constant_conditions': len(lint_const_programs())})
     elif kind == 'lintSeeds':
         for name, src in seeds():
             lint(st, name, src)
@@ -404,6 +410,23 @@ def word_sizes(st, src, prog, argv, compiled, tag):
     st.add('width_independent_runs')
 
 
+def lint_const_programs():
+    """Statements whose condition the compiler can decide: whatever it does with the dead part, it must do the same under --lint."""
+    conds = ['true', 'false', 'DBG', 'not DBG', 'LIM == 3', 'LIM > 3', '1 < 2', '(LIM * 2) is bool', 'DBG and x > 0', 'DBG or x > 0', 'x > 0 and false', "'a' == 'b'", '"s" is bool', '"" is bool',
+             '[1, 2].length == 2']
+    dead = ["int a = x; int b = a + 1; int c = b * 2; int d = c - a; write(d); write(\"dead arm\");", "int[] t = [x, 2, 3]; write(t[1]); f(x);", "write('k');", "return;", "x += 1;"]
+    out = []
+    for c in conds:
+        for k, d in enumerate(dead):
+            for shape in ('if ({c}) {{ {d} }}', 'if ({c}) {{ {d} }} else {{ write(\'e\'); }}', 'if (x == 9) {{ write(\'n\'); }} else if ({c}) {{ {d} }} else {{ int q = x; write(q); }}',
+                          'while ({c}) {{ {d} break; }}', 'for (int i = 0; {c} and i < 2; i += 1) {{ {d} }}', 'write(({c}) is int);', 'bool w = {c}; if (w) {{ {d} }}'):
+                if (shape.startswith('write') or shape.startswith('bool')) and k:
+                    continue
+                out.append('const bool DBG = false; const int LIM = 3;\nint f(int v) { write(\'f\'); return v; }\nempty @is_you(int x) { write(\'<\'); '
+                           + shape.format(c=c, d=d) + " write('>'); writeln(x); }\n")
+    return out
+
+
 def lint(st, name, src, must_compile=True):
     case = {'kind': 'lint', 'name': name, 'src': src, 'must_compile': must_compile}
     st.add('evaluations')
@@ -436,7 +459,7 @@ def coverage(total, tier):
         'stack_monotonicity': 'full sweeps (every size from 1 word to S_min+8, then 256 and 1024) of S batches, all F programs, every X program of C08 with a dynamic array left by falling through / returning, and every 29th (thorough: 7th) other X program',
         'maximum_stack': 'two programs using global and argv arrays of every element type at the 13 largest legal stack sizes and around half of it (W=2)',
         'word_size_monotonicity': 'E, S batches and F programs at W 2,3,4,8 on runs whose 16-bit reference execution never wraps a value',
-        'lint': 'S batches, all seed programs and every body of family B (C16) up to size ' + ('3' if tier == 'quick' else '4 (every 3rd of size 4)') + ' printed without statement markers: a compiler diagnostic or byte-identical assembly',
+        'lint': 'S batches, all seed programs and every body of family B (C16) up to size ' + ('3' if tier == 'quick' else '4 (every 3rd of size 4)') + ' printed without statement markers, and 15 compile-time-decidable conditions x 5 dead/live bodies x if / if-else / else-if / while / for / value / through a bool variable: a compiler diagnostic or byte-identical assembly',
     })
     for k in ('identical_builds', 'sweeps', 'width_independent_runs', 'runs_with_16bit_wrap_skipped', 'lint_identical', 'lint_rejected'):
         cov[k] = total.get(k, 0)
